@@ -37,6 +37,7 @@ type CtrlDriver struct {
 	Queue   []CtrlCmd
 	SentIDs []uint64
 	Acks    []CtrlAck
+	OnAck   func(a CtrlAck)
 }
 
 type ctrlMW struct{ d *CtrlDriver }
@@ -50,7 +51,11 @@ func (m *ctrlMW) Tick() bool {
 			break
 		}
 		if r, ok := msg.(memcontrolprotocol.Rsp); ok {
-			m.d.Acks = append(m.d.Acks, CtrlAck{Rsp: r, Time: m.d.CurrentTime()})
+			a := CtrlAck{Rsp: r, Time: m.d.CurrentTime()}
+			m.d.Acks = append(m.d.Acks, a)
+			if m.d.OnAck != nil {
+				m.d.OnAck(a)
+			}
 		}
 		progress = true
 	}
